@@ -340,6 +340,37 @@ func RunC20(cfg simrt.Config, o world.Opts) *world.Result {
 		if err := commitAll(wt, "after", 1); err != nil {
 			panic(err)
 		}
+		// The verdict is about the two committed versions. Afterwards the work tree may hold
+		// anything: the previous version again, no Thrift files at all, or a further edit.
+		if simrt.Flip("c20.dirty-worktree", 0.25) {
+			mode := ch("c20.dirty-mode", 3)
+			switch mode {
+			case 0:
+				if err := writeVersion(repo, before); err != nil {
+					panic(err)
+				}
+			case 1:
+				empty := after.Clone()
+				for i := range empty.Files {
+					empty.Files[i].Deleted = true
+				}
+				if err := writeVersion(repo, empty); err != nil {
+					panic(err)
+				}
+			default:
+				further := after.Clone()
+				for i := 0; i < 6; i++ {
+					if e := further.ApplyEdit(true, true); e != nil {
+						break
+					}
+				}
+				if err := writeVersion(repo, further); err != nil {
+					panic(err)
+				}
+			}
+			logf("work tree left dirty after the second commit (mode %d)", mode)
+			res.Count(fmt.Sprintf("c20.dirty-worktree.mode%d", mode), 1)
+		}
 		res.Nontrivial = true
 		if len(expected) > 0 {
 			res.Count("c20.pairs-with-breaking-changes", 1)
